@@ -1,5 +1,5 @@
 (* Case type and the two checks evaluated on harness cases for C27. *)
-From FH Require Import Model.Base Gen.GenC27 Model.IPv6 Model.PathNorm Model.Uri.
+From FH Require Import Model.Base Gen.GenC27 Model.IPv6 Model.PathNorm Model.Uri Spec.NetUrl.
 Open Scope N_scope.
 
 (* what the getters of a URI return after Parse: ok?, Scheme() Host() Path() QueryString() Hash() *)
@@ -77,4 +77,10 @@ Definition prop_ok (c : c27case) : bool :=
       (if obs_ok p && nu_ok && (match hostArg with [] => true | _ => false end) && is_http nu_scheme && is_http (obs_scheme p)
        then beq (obs_host p) (map lower_ascii nu_host) && beq (obs_qs p) nu_query
        else true)
+      &&
+      (* validation of Spec/NetUrl.v against the real net/url.Parse (a failure here is a bug of the specification) *)
+      (match nu_parse uri with
+       | None => negb nu_ok
+       | Some (s, h, q) => nu_ok && beq s nu_scheme && beq h nu_host && beq q nu_query
+       end)
   end.
